@@ -720,10 +720,20 @@ func runCase(c *rig.Ctx, cs Case, st *stats) []rig.Failure {
 	r := &runner{c: c, cs: cs, ridSet: map[int]bool{}, keys: universeKeys, st: st, cutSeen: map[int]bool{}}
 	r.w = newWorld()
 	defer r.w.close()
+	// the history stops at the first property-level failure; bookkeeping differences alone do not stop it (what
+	// they lead to on the wire is what the property is about), up to a handful
+	stop := func() bool {
+		for _, f := range r.fails {
+			if f.Kind == "judge" {
+				return true
+			}
+		}
+		return len(r.fails) >= 6
+	}
 	for i, op := range cs.Ops {
 		r.exec(i, op)
 		opEnd := time.Now()
-		if len(r.fails) > 0 {
+		if stop() {
 			break
 		}
 		ms, ok := r.model()
@@ -732,7 +742,7 @@ func runCase(c *rig.Ctx, cs Case, st *stats) []rig.Failure {
 		}
 		r.bind(ms)
 		r.check(i, op, ms, opEnd)
-		if len(r.fails) > 0 {
+		if stop() {
 			break
 		}
 	}
